@@ -63,11 +63,17 @@ class Scaler:
         return (np.asarray(X, dtype=float) - self.B) / self.A
 
 
-def _make_pca(npcs, log):
+def _make_pca(npcs_seq, log):
+    """PCA stand-in: the k-th fitted instance retains npcs_seq[k] components (the number of components reaching
+    ev_threshold may change from one reference window to the next)"""
+    count = [0]
+
     class FakePCA:
         def __init__(self, ev):
             self.ev = ev
-            self.components_ = [None] * npcs
+            self.k = npcs_seq[min(count[0], len(npcs_seq) - 1)]
+            count[0] += 1
+            self.components_ = [None] * self.k
 
         def fit(self, X):
             log.append(("pca.fit", np.asarray(X, dtype=float).copy()))
@@ -75,7 +81,7 @@ def _make_pca(npcs, log):
         def transform(self, X):
             X = np.asarray(X, dtype=float)
             log.append(("pca.transform", X.copy()))
-            return X[:, :npcs] * 1.0
+            return X[:, : self.k] * 1.0
 
     return FakePCA
 
@@ -85,7 +91,7 @@ def _data(seed, n, dim):
     return np.round(rs.rand(n, dim) * 10, 2)
 
 
-def body_run(ctx, w, npcs, metric, scaling, period, seed, N=None):
+def body_run(ctx, w, npcs, metric, scaling, period, seed, N=None, npcs_after=None):
     M = importlib.import_module("menelaus.data_drift.pca_cd")
     from menelaus.change_detection import PageHinkley
 
@@ -104,7 +110,9 @@ def body_run(ctx, w, npcs, metric, scaling, period, seed, N=None):
     delta = ctx.real("ph_delta")
     N = N or 4 * w + 2
     X = _data(seed, N, dim)
-    with rebind(M, StandardScaler=Scaler, PCA=_make_pca(npcs, log), np=shim):
+    npcs_seq = [npcs] + ([npcs_after] if npcs_after else [])
+    nbuilt = 0
+    with rebind(M, StandardScaler=Scaler, PCA=_make_pca(npcs_seq, log), np=shim):
         d = M.PCACD(window_size=w, divergence_metric=metric, online_scaling=scaling, delta=delta, sample_period=period)
         step = min(100, round(period * w))
         ctx.prove(d.step == step and d.ph_threshold == round(0.01 * w) and d.bins == int(np.floor(np.sqrt(w))), "derived-parameters")
@@ -152,6 +160,8 @@ def body_run(ctx, w, npcs, metric, scaling, period, seed, N=None):
                 ctx.prove(d.drift_state is None, "silent-while-windows-fill")
                 if len(test_raw) == w:
                     built = True
+                    npcs = npcs_seq[min(nbuilt, len(npcs_seq) - 1)]  # components retained for this reference window
+                    nbuilt += 1
                     R, T = np.vstack(ref_raw), np.vstack(test_raw)
                     fits = [e for e in log if e[0] == "pca.fit"]
                     ctx.prove(len(fits) == 1 and np.allclose(fits[0][1], tr(R)), "pca-fitted-on-the-reference-window-only")
@@ -257,6 +267,13 @@ def jobs(tier):
                                            {"w": w, "npcs": npcs, "metric": metric, "scaling": scaling, "period": period, "seed": seed,
                                             "N": n},
                                            expect=exp, opts={"validate": 1}))
+    # the number of retained components changes from one reference window to the next (2 -> 1 and 1 -> 2)
+    for a, b in ((2, 1), (1, 2)):
+        for metric in ("intersection", "kl"):
+            out.append(Job(f"run-w2-k{a}to{b}-{metric}", "checks.c11:body_run",
+                           {"w": 2, "npcs": a, "npcs_after": b, "metric": metric, "scaling": metric == "kl", "period": 1.0,
+                            "seed": 1, "N": 9},
+                           expect=("built", "drift", "after-drift"), opts={"validate": 1}))
     for n in (1, 2, 3):
         out.append(Job(f"identical-n{n}", "checks.c11:body_identical", {"n": n}, expect=("lemma",)))
     return out
